@@ -651,7 +651,12 @@ def _clw_a_2(c):
 
 T(ALL, S8, 'clwkst_a_2', 'sum', _clw_a_2,
   'Credit Limit Worksheet A line 2: add the amounts of Schedule 3 lines 1, 2, 3, 4, (Form 5695 line 30 / 2023: line 5b), 6d, 6e, 6f, 6l (2023: 6m)')
-T(ALL, S8, 'clwkst_a_3', 'difference', DIFF('clwkst_a_1', 'clwkst_a_2'), 'Credit Limit Worksheet A line 3: Subtract line 2 from line 1')
+# Reading fixed by the lead: the worksheet says "Subtract line 2 from line 1" and assumes the line-2 credits never exceed the
+# tax (the Schedule 3 line 1 instructions limit the foreign tax credit to the tax).  habutax does not apply that limit on
+# Schedule 3 (doing so would need Form 1040 line 16 there, which the repository's own Schedule 3 tests do not supply), so the
+# repaired 2022/2023 code clamps this line at zero instead; for 2021 (line 2 taken from a yes/no answer) either reading agrees.
+T(ALL, S8, 'clwkst_a_3', 'difference', lambda c: (lambda d: d if d >= 0 or c.year == 2021 else 0.0)(c.L('clwkst_a_1') - c.L('clwkst_a_2')),
+  'Credit Limit Worksheet A line 3: Subtract line 2 from line 1 (not less than zero: the credits on line 2 are limited to the tax)')
 T(ALL, S8, 'clwkst_a_5', 'difference', DIFF('clwkst_a_3', 'clwkst_a_4'),
   'Credit Limit Worksheet A line 5: Subtract line 4 from line 3. Enter here and on Schedule 8812, line 13 (2021: line 14c / 15a)')
 # 2022 / 2023 layout
